@@ -296,7 +296,19 @@ pub fn g_field_def(ch: &mut Choices) -> MField {
 
 /// body of a definition (`is_ext` = extension: at least one component must be present
 /// and there is no description)
+#[derive(Clone, Copy, Debug, Default)]
+pub struct SynOpts {
+    /// `type X` / `type X implements I` without directives and fields (spec-legal)
+    pub bare_object: bool,
+    /// `union U` / `union U @d` without `= members` (spec-legal)
+    pub bare_union: bool,
+}
+
 pub fn g_type_def(ch: &mut Choices, kind: Kind, name: &str, is_ext: bool) -> MTypeDef {
+    g_type_def_with(ch, kind, name, is_ext, SynOpts::default())
+}
+
+pub fn g_type_def_with(ch: &mut Choices, kind: Kind, name: &str, is_ext: bool, so: SynOpts) -> MTypeDef {
     let mut t = MTypeDef::new(kind, name);
     if !is_ext {
         t.desc = g_desc(ch);
@@ -321,6 +333,8 @@ pub fn g_type_def(ch: &mut Choices, kind: Kind, name: &str, is_ext: bool) -> MTy
                     // legal: extend type X implements I
                 } else if kind == Kind::Interface && !is_ext {
                     // `interface X` alone is accepted by nitrogql's grammar and by the spec
+                } else if kind == Kind::Object && !is_ext && so.bare_object {
+                    // `type X` alone: legal per spec
                 } else {
                     t.fields = vec![g_field_def(ch)];
                 }
@@ -332,7 +346,7 @@ pub fn g_type_def(ch: &mut Choices, kind: Kind, name: &str, is_ext: bool) -> MTy
             if t.members.is_empty() && (is_ext && t.directives.is_empty()) {
                 t.members = vec![g_type_name(ch)];
             }
-            if t.members.is_empty() && !is_ext {
+            if t.members.is_empty() && !is_ext && !so.bare_union {
                 // spec: `union U` (no `=`) is legal; `union U =` is not. Renderer prints no `=`.
                 // nitrogql's grammar requires `=`: avoid the memberless definition here.
                 t.members = vec![g_type_name(ch)];
@@ -397,11 +411,15 @@ pub fn g_directive_def(ch: &mut Choices) -> MDirectiveDef {
 }
 
 pub fn g_ts_def(ch: &mut Choices) -> MTsDef {
+    g_ts_def_with(ch, SynOpts::default())
+}
+
+pub fn g_ts_def_with(ch: &mut Choices, so: SynOpts) -> MTsDef {
     match ch.weighted(&[8, 5, 2, 1, 1]) {
         0 => {
             let kind = *ch.pick(&Kind::ALL);
             let name = g_type_name(ch);
-            MTsDef::Type(g_type_def(ch, kind, &name, false))
+            MTsDef::Type(g_type_def_with(ch, kind, &name, false, so))
         }
         1 => {
             let kind = *ch.pick(&Kind::ALL);
@@ -415,6 +433,10 @@ pub fn g_ts_def(ch: &mut Choices) -> MTsDef {
 }
 
 pub fn g_ts_doc(ch: &mut Choices) -> MTsDoc {
+    g_ts_doc_with(ch, SynOpts::default())
+}
+
+pub fn g_ts_doc_with(ch: &mut Choices, so: SynOpts) -> MTsDoc {
     let n = ch.range(1, 6);
-    (0..n).map(|_| g_ts_def(ch)).collect()
+    (0..n).map(|_| g_ts_def_with(ch, so)).collect()
 }
